@@ -5,8 +5,10 @@ CONSTANTS
   NChunks = 2
   AutoChoices = {{"P1"}}
   HwChoices = {{}, {"P2"}}
+  NoDefChoices = {{}, {"P1"}}
+  CfgVals = {"v1"}
   Faults = {"crash", "ioerror"}
-  Corruptions = {"missing", "notjson", "notdict", "extra", "bad", "drop"}
+  Corruptions = {"missing", "notjson", "notdict", "extra", "bad", "drop", "wipe"}
   Dev = {"BelieveEarly"}
 INVARIANT Retry
 CHECK_DEADLOCK FALSE
